@@ -29,8 +29,22 @@ def run_one(slot, name, patch, checks, args):
         r = subprocess.run(cmd, shell=True, capture_output=True, text=True, env=env, cwd=VERIF)
         lines = [l for l in r.stdout.splitlines() if l.startswith("VIOLATION") or l.startswith("  kind=")]
         summary = [l for l in r.stdout.splitlines() if l.startswith(f"[{cid}]")]
-        res["checks"][cid] = {"exit": r.returncode, "wall": round(time.time() - t0, 1),
-                              "first": lines[1][:300] if len(lines) > 1 else "", "summary": summary[-1][:200] if summary else r.stderr[-300:]}
+        entry = {"exit": r.returncode, "wall": round(time.time() - t0, 1),
+                 "first": lines[1][:300] if len(lines) > 1 else "", "summary": summary[-1][:200] if summary else r.stderr[-300:]}
+        if r.returncode == 1 and lines:
+            # replay the (shrunk) replay file in a fresh process on the changed tree: it must fail the same way
+            path = lines[0].split("replay=", 1)[1].strip()
+            kind = lines[1].strip().split(" ")[0] if len(lines) > 1 else ""
+            rr = subprocess.run(f"{VERIF}/bin/check {cid} --replay {path}", shell=True, capture_output=True, text=True, env=env, cwd=VERIF)
+            entry["replay_exit"] = rr.returncode
+            entry["replay_same_kind"] = bool(kind and kind in rr.stdout)
+            try:
+                doc = json.load(open(path))
+                entry["replay_shrunk"] = doc.get("shrunk")
+                entry["replay_case_size"] = len(json.dumps(doc.get("case")))
+            except Exception:
+                pass
+        res["checks"][cid] = entry
     sh(f"git -C {wt} checkout -q -- .")
     return res
 
@@ -75,7 +89,8 @@ def main():
                 out = run_one(slot, *item, args)
             finally:
                 slots.put(slot)
-            det = {c: ("DETECTED" if v["exit"] == 1 else ("clean" if v["exit"] == 0 else f"exit{v['exit']}")) for c, v in out.get("checks", {}).items()}
+            det = {c: (("DETECTED" + ("+replayed" if v.get("replay_exit") == 1 and v.get("replay_same_kind") else "/REPLAY-FAILED"))
+                       if v["exit"] == 1 else ("clean" if v["exit"] == 0 else f"exit{v['exit']}")) for c, v in out.get("checks", {}).items()}
             print(f"{out['name']:42s} {det} {out.get('error', '')}", flush=True)
             return out
         with ThreadPoolExecutor(args.jobs) as ex:
